@@ -411,12 +411,18 @@ class DisjunctionMaxMatcher(UnionMatcher):
         aq = a.block_quality()
         bq = b.block_quality()
         while a.is_active() and b.is_active() and max(aq, bq) <= minquality:
+            sk = 0
             if aq <= minquality:
-                skipped += a.skip_to_quality(minquality)
+                sk += a.skip_to_quality(minquality)
                 aq = a.block_quality()
             if bq <= minquality:
-                skipped += b.skip_to_quality(minquality)
+                sk += b.skip_to_quality(minquality)
                 bq = b.block_quality()
+            skipped += sk
+            if not sk:
+                # Neither sub-matcher could move (e.g. its quality equals the
+                # threshold exactly), so looping again cannot make progress
+                break
         return skipped
 
 
